@@ -34,6 +34,8 @@ type Ctx struct {
 	NumPkgs int
 	lockInfo *LockInfo
 	ctorOnly map[*ssa.Function]bool
+	fieldAcc map[string][]FieldAccess
+	blocking map[*ssa.Function][]string
 	NumFns  int
 }
 
